@@ -255,13 +255,13 @@ def main():
             'enable': 'no guarded hooks exist or are needed: every check observes phq through its public API (and the iterable '
                       'Internal tables), sizeof/memcpy of trivially copyable objects and process exit status; the guard name is reserved only',
             'baseline_off_cmd': 'cmake -G Ninja -S /repo -B /repo/_build -DPHYSICAL_QUANTITIES_PHQ_TEST=ON && cmake --build /repo/_build -j 16 && ctest --test-dir /repo/_build -j 8 --timeout 900',
-            'source_commits': commits,
+            'source_commits': [],
             'add_only': True,
         },
         'engines': engines,
         'checks': [CHECKS[p] for p in props if p in CHECKS],
-        'notes': 'source_commits are unguarded "fix:" commits repairing genuine defects found by these checks (see known_findings.json '
-                 'and DESIGN.md section 6); there are no hook commits. Every check rebuilds its harnesses from /repo/include keyed by a '
+        'notes': 'There are no hook commits (hooks.source_commits is empty, nothing in /repo is guarded). The unguarded "fix:" commits in /repo that '
+                 'repair genuine defects found by these checks are ' + ', '.join(commits) + ' (see known_findings.json and DESIGN.md section 12.2). Every check rebuilds its harnesses from /repo/include keyed by a '
                  'content hash of the tree. Exit codes: 0 held, 1 VIOLATION, 2 machinery could not decide.',
         'not_applicable': [{'property_id': p, 'reason': PENDING} for p in props if p not in CHECKS],
     }
